@@ -104,6 +104,38 @@ def run(v):
         f.write(open(trace_ls).read())
     v.cov["distinct_nontrivial"] = validate(v, trace, "t")
     v.cov["tlc_cases_generated"] = n
+    # sessions in which statsPath changes while the server runs (StatsSession.tla)
+    mc = os.path.join(SPEC, "mc", "MC_StatsSession.tla")
+    rd = common.tlc(mc, os.path.join(SPEC, "mc", "MC_StatsSession_dev_keep.cfg"), "c19_ss_dev", workers=2, timeout=600, coverage=False)
+    if rd.violated != "NeverTwice":
+        raise common.ToolError("MC_StatsSession_dev_keep: TLC did not refute NeverTwice (vacuous invariant)")
+    for cfg in ("MC_StatsSession_none", "MC_StatsSession_clear"):
+        r = common.tlc(mc, os.path.join(SPEC, "mc", cfg + ".cfg"), "c19_" + cfg, workers=4, timeout=900, coverage=False)
+        if r.violated:
+            v.failure({"kind": "model", "invariant": r.violated, "cfg": cfg}, {"tlc_output": r.output[-3000:]})
+        v.add_mc(cfg, r, "records applied, statsPath switched, shutdown, restart in every order within bounds: EachAppliedOnce, NeverTwice, InOrder")
+    trace_sp = os.path.join(wd, "trace_paths.ndjson")
+    rc, out, err = common.run_hv(["ls-stats-paths", "--out", trace_sp, "--seed", v.seed, "--sessions", 300 if thorough else 40], timeout=7200)
+    if rc != 0:
+        raise common.ToolError("hv ls-stats-paths failed: " + err[-2000:])
+    consumed, rejects, rr = common.validate_trace(os.path.join(SPEC, "trace", "Trace_StatsSession.tla"),
+                                                  os.path.join(SPEC, "trace", "Trace_StatsSession.cfg"), trace_sp, "c19_sp", timeout=900)
+    evs = common.read_ndjson(trace_sp)
+    if consumed != len(evs):
+        raise common.ToolError(f"trace {trace_sp}: consumed {consumed} of {len(evs)} events")
+    v.cov["evaluations"] += len(evs)
+    v.cov["traces_validated_against_impl"] += sum(1 for e in evs if e["ev"] == "Reset")
+    v.cov["path_switch_sessions"] = {"sessions": sum(1 for e in evs if e["ev"] == "Reset"), "switches": sum(1 for e in evs if e["ev"] == "Switch"),
+                                     "records": sum(1 for e in evs if e["ev"] == "Rec"), "model_drift": len(rr.drifts)}
+    for d in rr.drifts[:5]:
+        v.drift.append("statistics session: the logs differ from StatsSession's FlushOnSwitch=none behaviour at event %s" % d[0])
+    for rej in rejects:
+        i = rej[0] - 1
+        k = i
+        while k > 0 and evs[k]["ev"] != "Reset":
+            k -= 1
+        v.failure({"kind": rej[1], "level": "session", "switches_before": sum(1 for e in evs[k:i] if e["ev"] == "Switch")},
+                  {"event": evs[i], "session": evs[k:i + 1]})
     v.cov["rule"] = ("sessions = a fresh log, 1-3 append batches, the whole log read back and summarised after "
                      "each batch. Records: TLC-enumerated lists over 9 character classes (plain, n, LF, CR, "
                      "quote, backslash, control, astral, U+2028) split into batches in every way; records "
@@ -115,6 +147,17 @@ def run(v):
 
 def replay(v, path):
     rep = json.load(open(path))
+    if rep["replay"].get("session"):
+        wd = common.workdir("c19_replay")
+        tf = os.path.join(wd, "session.ndjson")
+        with open(tf, "w") as f:
+            for e in rep["replay"]["session"]:
+                f.write(json.dumps(e) + "\n")
+        consumed, rejects, _ = common.validate_trace(os.path.join(SPEC, "trace", "Trace_StatsSession.tla"),
+                                                     os.path.join(SPEC, "trace", "Trace_StatsSession.cfg"), tf, "c19_spr", timeout=300)
+        for rej in rejects:
+            v.failure({"kind": rej[1], "level": "session"}, {"event": rep["replay"]["event"], "session": rep["replay"]["session"]})
+        return v.finish()
     sf = rep["replay"].get("session_file")
     print(json.dumps(rep["replay"]["event"], ensure_ascii=False)[:2000])
     if sf and os.path.exists(sf):
